@@ -248,18 +248,18 @@ func c07Run(g c07Getter, wire []byte, extra, fill int, key []byte, r *gen.Rand, 
 
 func c07(c *core.Ctx) {
 	selfCheckOracles()
-	c.Section("concurrent-getters", c.N(40, 1500), func(i int64, _ *gen.Rand) {
+	c.Section("concurrent-getters", c.N(40, 5000), func(i int64, _ *gen.Rand) {
 		c07Concurrent(c, i)
 		c.Distinct(uint64(i) | 5<<50)
 	})
 	if c.Config == "race" {
 		return
 	}
-	c.Section("receiver-and-message-reuse", c.N(3000, 100000), func(_ int64, r *gen.Rand) {
+	c.Section("receiver-and-message-reuse", c.N(3000, 1000000), func(_ int64, r *gen.Rand) {
 		c07Reuse(c, r)
 	})
 	getters := c07Getters()
-	reps := int(c.N(10, 100))
+	reps := int(c.N(10, 600))
 	total := int64(len(getters) * 41 * 3 * len(c07Caps))
 	c.Section("twins", total, func(i int64, r0 *gen.Rand) {
 		gi := int(i) % len(getters)
